@@ -142,6 +142,42 @@ theorem cached_evaluate_transparent (o : V) (ho : D o) (s : St) (hinv : StoreInv
       · rw [entryLookup_insert_other hf] at hw
         exact hinv f w hw
 
+/-- **memoization is effective (1).** After a successful evaluation on `o` the store holds `o`'s outcome under `o`'s
+    fingerprint. -/
+theorem cached_evaluate_stores (o : V) (ho : D o) (s : St) (hinv : StoreInv c D fp den s) (v : V) (hv : den o = .ok v)
+    (r : Except Err V) (s' : St) (h : cachedOp env run x c .evaluate o s = some (r, s')) :
+    entryLookup (fp o) (s'.E c) = some v := by
+  obtain ⟨s1, h1, e1⟩ := fs_exists H o ho s
+  simp only [cachedOp, cacheLookup, bind_run, h1] at h
+  cases hl : entryLookup (fp o) (s.E c) with
+  | some w =>
+    obtain ⟨s2, h2, e2⟩ := fs_get H o ho s1
+    have hl1 : entryLookup (fp o) (s1.E c) = some w := by rw [e1]; exact hl
+    simp only [hl, Option.isSome_some, if_true, handle, bind_run, h2, hl1, pure_run] at h
+    simp only [Option.some.injEq, Prod.mk.injEq] at h
+    obtain ⟨_, rfl⟩ := h
+    obtain ⟨o', ho', hfp, hden⟩ := hinv _ _ hl
+    have : den o = .ok w := by rw [H.sufficient o o' ho ho' hfp.symm, hden]
+    rw [hv] at this; cases this
+    rw [e2, e1]; exact hl
+  | none =>
+    simp only [hl, Option.isSome_none, Bool.false_eq_true, if_false, pure_run, bind_run] at h
+    obtain ⟨s2, h2, e2⟩ := H.inner o ho s1
+    obtain ⟨s3, h3, e3⟩ := fs_set H o ho v s2
+    simp only [h2, hv, h3, Option.some.injEq, Prod.mk.injEq] at h
+    obtain ⟨_, rfl⟩ := h
+    rw [e3]; exact entryLookup_insert_same _ _ _
+
+/-- **memoization is effective (2).** With an entry under the fingerprint, an evaluation on ANY dictionary with that
+    fingerprint consists of the existence request and the get request — the inner expression does not occur: no
+    body, no effect, no nested evaluation runs. -/
+theorem cached_hit_runs_nothing (o : V) (ho : D o) (t : St) (v : V) (hent : entryLookup (fp o) (t.E c) = some v) :
+    cachedOp env run x c .evaluate o t = (existsReq env run x c o >>= fun _ => getReq env run x c o) t := by
+  obtain ⟨s1, h1, e1⟩ := fs_exists H o ho t
+  obtain ⟨s2, h2, e2⟩ := fs_get H o ho s1
+  have hl1 : entryLookup (fp o) (s1.E c) = some v := by rw [e1]; exact hent
+  simp only [cachedOp, cacheLookup, bind_run, h1, hent, Option.isSome_some, if_true, handle, h2, hl1, pure_run]
+
 /-- **any history.** Evaluate the node on `o₁ … oₖ` (dictionaries of `D`) one after the other on one long-lived
     state, in any order, with repetitions: every evaluation returns the uncached outcome of its dictionary. -/
 theorem cached_history_transparent : ∀ (hist : List V), (∀ o ∈ hist, D o) → ∀ (s : St), StoreInv c D fp den s →
